@@ -219,6 +219,17 @@ def run(shard, rec):
                 FX = [Fr(v) for v in X]
                 FY = [Fr(v) for v in Y] if Y else None
                 judge(rec, what, case, tp, fn, FX, FY, nq, got)
+                if len(X) >= 2 and fn != 'correlation':
+                    xl, yl = [T(v) for v in X], [T(v) for v in Y] if Y else None
+                    out(call(mpc, fn, xl, yl, nq))
+                    xl[0], xl[-1] = xl[-1], xl[0] + 1
+                    X2 = list(X)
+                    X2[0], X2[-1] = X2[-1], X2[0] + 1
+                    if yl:
+                        yl.reverse()
+                    got2 = out(call(mpc, fn, xl, yl, nq))
+                    rec.count('same_list_object_reevaluated_after_change')
+                    judge(rec, what + ' (same list object changed in place and evaluated again)', case, tp, fn, [Fr(v) for v in X2], [Fr(v) for v in Y[::-1]] if Y else None, nq, got2)
             rec.case(case, nontrivial=len(X) >= 3 and len(set(X)) > 1, sample={'type': tp, 'fn': fn, 'data': X[:6]} if rng.random() < 0.02 else None)
         return
     m, t, no_prss = shard['cfg']
@@ -229,19 +240,34 @@ def run(shard, rec):
         X = gen_data(rng, tp, n)
         Y = gen_data(rng, tp, n)
         nq = rng.randint(2, 5)
-        case = [shard['name'], tp, fns, [str(v) for v in X], [str(v) for v in Y], nq]
+        j2, v2 = rng.randrange(n), gen_data(rng, tp, 1)[0]
+        X2 = list(X)
+        X2[j2] = v2
+        Y2 = Y[::-1]
+        case = [shard['name'], tp, fns, [str(v) for v in X], [str(v) for v in Y], nq, j2, str(v2)]
         if not rec.wants(case):
             continue
 
-        async def program(mpc, pid, tp=tp, fns=fns, X=X, Y=Y, nq=nq):
+        async def program(mpc, pid, tp=tp, fns=fns, X=X, Y=Y, nq=nq, j2=j2, v2=v2):
             T = mpc.SecInt(32) if tp == 'int' else mpc.SecFxp(32, 16)
             mk = (lambda v: T(v)) if tp == 'int' else (lambda v: T(v, integral=False))
             xs = mpc.input([mk(v if pid == 0 else 0) for v in X], senders=0)
             ys = mpc.input([mk(v if pid == 0 else 0) for v in Y], senders=0)
             res = []
             for fn in fns:
-                r = call(mpc, fn, xs, ys, nq)
+                # the data lists belong to the caller, who overwrites them right after the call: the result is that of the data as passed
+                xa, ya = list(xs), list(ys)
+                r = call(mpc, fn, xa, ya, nq)
+                xa[:] = [mk(77)] * len(xa)
+                ya[:] = [mk(-55 + i) for i in range(len(ya))]
                 res.append(await mpc.output(r))
+            for fn in fns:
+                # one list object evaluated, changed in place, evaluated again: the second result is that of the changed data
+                xl, yl = list(xs), list(ys)
+                await mpc.output(call(mpc, fn, xl, yl, nq))
+                xl[j2] = mk(v2)
+                yl.reverse()
+                res.append(await mpc.output(call(mpc, fn, xl, yl, nq)))
             return res
         w = sim.World(m, t, no_prss, seed=rng.randrange(1 << 30), policy=rng.choice(sim.POLICIES)).run(program)
         res = w.ok_results()
@@ -252,7 +278,12 @@ def run(shard, rec):
         for fn, got in zip(fns, res[0]):
             FX = [Fr(v) for v in X]
             FY = [Fr(v) for v in Y]
-            judge(rec, what, case, tp, fn, FX, FY if fn in ('covariance', 'correlation', 'linear_regression') else None, nq, got)
+            judge(rec, what + ' (caller overwrites its lists after the call)', case, tp, fn, FX, FY if fn in ('covariance', 'correlation', 'linear_regression') else None, nq, got)
+        for fn, got in zip(fns, res[0][len(fns):]):
+            FX = [Fr(v) for v in X2]
+            FY = [Fr(v) for v in Y2]
+            rec.count('same_list_object_reevaluated_after_change')
+            judge(rec, what + ' (same list object changed in place and evaluated again)', case, tp, fn, FX, FY if fn in ('covariance', 'correlation', 'linear_regression') else None, nq, got)
         if tp == 'int' and any(r != res[0] for r in res):
             rec.violation(f'{what} {fns}: parties obtained different results', {'mechanism': 'parties-disagree', 'type': tp}, {'case': case}, case=case)
         rec.case(case, nontrivial=len(set(X)) > 1, sample={'config': shard['name'], 'type': tp, 'fns': fns, 'X': X} if ci == 0 else None)
